@@ -256,6 +256,9 @@ Error CodeHolder::init(const Environment& environment, const CpuFeatures& cpu_fe
   // Create a default section and insert it to the `_sections` array.
   Error err = CodeHolder_init_section_storage(this);
   if (ASMJIT_UNLIKELY(err != Error::kOk)) {
+    // The vectors must not keep pointing to the memory of the arena we are resetting.
+    _sections.reset();
+    _sections_by_order.reset();
     _arena.reset();
     return make_error(Error::kOutOfMemory);
   }
